@@ -205,12 +205,17 @@ def adapter_case(multicast, seq):
         def message_received(self, someip_message, addr, multicast):
             got.append((someip_message, addr, multicast))
 
-    adapter = sd.DatagramProtocolAdapter(App(), is_multicast=multicast)
+    app = App()
+    adapter = sd.DatagramProtocolAdapter(app, is_multicast=multicast)
+    # the same application object also serves the other channel through a second adapter / transport; that one is lost
+    other = sd.DatagramProtocolAdapter(app, is_multicast=not multicast)
+    del app
     gc.collect()
     addr = ("192.0.2.5", 30501)
     try:
-        for _ in range(2):
-            adapter.datagram_received(b"".join(refcodec.enc_someip(*m[i]) for i in seq), addr)
+        adapter.datagram_received(b"".join(refcodec.enc_someip(*m[i]) for i in seq), addr)
+        other.connection_lost(None)
+        adapter.datagram_received(b"".join(refcodec.enc_someip(*m[i]) for i in seq), addr)
     except Exception as e:  # noqa: BLE001
         return [("datagram", f"adapter-raises-{type(e).__name__}", f"{type(e).__name__}: {e}")]
     want = [mk(*m[i]) for i in seq] * 2
